@@ -249,19 +249,19 @@ def brentIter (tol : Rat) (s : Bt) : BtStep :=
       let a := if u ≥ s.x then s.x else s.a
       let b := if u ≥ s.x then s.b else s.x
       .next ({ a := a, b := b, d := d, e := e, x := u, w := s.x, v := s.w, fx := fu, fw := s.fx, fv := s.fw,
-              pm := mc fu s.fx } : Bt) (u, mu)
+                pm := mc fu s.fx } : Bt) (u, mu)
     else
       let a := if u < s.x then u else s.a
       let b := if u < s.x then s.b else u
       if fu ≤ s.fw ∨ s.w = s.x then
         .next ({ s with a := a, b := b, d := d, e := e, v := s.w, w := u, fv := s.fw, fw := fu,
-                       pm := rmin (mc fu s.fx) (mc fu s.fw) }) (u, mu)
+                          pm := rmin (mc fu s.fx) (mc fu s.fw) }) (u, mu)
       else if fu ≤ s.fv ∨ s.v = s.x ∨ s.v = s.w then
         .next ({ s with a := a, b := b, d := d, e := e, v := u, fv := fu,
-                       pm := mins [mc fu s.fx, mc fu s.fw, mc fu s.fv] }) (u, mu)
+                          pm := mins [mc fu s.fx, mc fu s.fw, mc fu s.fv] }) (u, mu)
       else
         .next ({ s with a := a, b := b, d := d, e := e,
-                       pm := mins [mc fu s.fx, mc fu s.fw, mc fu s.fv] }) (u, mu)
+                          pm := mins [mc fu s.fx, mc fu s.fw, mc fu s.fv] }) (u, mu)
 
 inductive Out1 where
   | ok (xmin fmin : Rat) (m : Rat)   -- `x_min`, `f_min`; margin of the final convergence test
